@@ -217,6 +217,14 @@ func newServerWorld(x *X) *serverWorld {
 	w := &serverWorld{x: x, s: x.S, cancelOf: map[string]context.CancelFunc{}}
 	w.exec = kmipserver.NewBatchExecutor()
 	w.exec.Route(kmip.OperationActivate, kmipserver.HandleFunc(w.handle))
+	// a second routed operation with the same scripted behaviour (C19 substitutes batch items across operations)
+	w.exec.Route(kmip.OperationRevoke, kmipserver.HandleFunc(func(ctx context.Context, p *payloads.RevokeRequestPayload) (*payloads.RevokeResponsePayload, error) {
+		r, err := w.handle(ctx, &payloads.ActivateRequestPayload{UniqueIdentifier: p.UniqueIdentifier})
+		if err != nil || r == nil {
+			return nil, err
+		}
+		return &payloads.RevokeResponsePayload{UniqueIdentifier: r.UniqueIdentifier}, nil
+	}))
 	return w
 }
 
